@@ -38,12 +38,18 @@
 (* keys are printed, the facility is printed under the name the parser     *)
 (* knows, and the command line accepts exactly what a config file can      *)
 (* carry (integers up to i64::MAX resp. 65535, UTF-8 paths).               *)
+(* Fixed names the deviations already repaired in the tree, so that the    *)
+(* export keeps predicting the code while repairs go in one by one.        *)
 (***************************************************************************)
 EXTENDS Naturals, Sequences, FiniteSets, TLC
 
 CONSTANTS Opts,      \* the options under consideration (subset of DOMAIN Table)
           MaxSet,    \* bound on the number of settings (file entries + command line options)
-          Variant    \* "intended" | "as_shipped"
+          Variant,   \* "intended" | "as_shipped"
+          Fixed      \* the deviations among "D1".."D5" already repaired in the tree (as_shipped only)
+
+(* Deviation d of the pinned code is present. *)
+Dev(d) == Variant = "as_shipped" /\ d \notin Fixed
 
 R(kind, flag, pos, print) == [kind |-> kind, flag |-> flag, pos |-> pos, print |-> print]
 
@@ -217,13 +223,6 @@ FileAccepts(o, c) ==
                                                       "stderr", "file"} \cup SyslogVals \cup DefaultVals
          [] OTHER                           -> TRUE
 
-(* A value that the file format can carry and the reader takes back. *)
-Representable(o, c) ==
-  CASE Kind(o) = "small_usize"         -> LE(c, "u16max")
-    [] Kind(o) \in IntKinds \ {"small_usize"} -> LE(c, "i64max")
-    [] Kind(o) \in PathKinds           -> c # "nonutf8"
-    [] OTHER                           -> TRUE
-
 (* The command line parser of the pinned code (clap value parsers). *)
 CliParses(o, c) ==
   CASE Kind(o) \in IntKinds            -> LE("0", c) /\ LE(c, "u64max")     \* u64 / usize (64 bit)
@@ -233,9 +232,14 @@ CliParses(o, c) ==
     [] Kind(o) \in {"path", "optpath"} -> c # "empty"                        \* PathBuf takes any OsString but ""
     [] OTHER                           -> TRUE
 
+(* Accepted on the command line.  The intended design accepts exactly what *)
+(* a config file can carry and the reader takes back; each deviation       *)
+(* widens the domain.                                                      *)
 CliAccepts(o, c) ==
-  IF Variant = "as_shipped" THEN CliParses(o, c)
-  ELSE CliParses(o, c) /\ Representable(o, c)
+  /\ CliParses(o, c)
+  /\ (Kind(o) \in IntKinds /\ ~LE(c, "i64max")) => Dev("D3")
+  /\ (Kind(o) = "small_usize" /\ ~LE(c, "u16max")) => Dev("D2")
+  /\ (Kind(o) \in PathKinds /\ c = "nonutf8") => Dev("D5")
 
 -----------------------------------------------------------------------------
 (* Abstract configuration values.                                          *)
@@ -342,7 +346,7 @@ SetCli(o, c) ==
   /\ UNCHANGED <<fin, phase, out, back, rejected>>
 
 PrintRule(o) ==
-  IF Variant = "as_shipped" /\ o \in {"no-rir-tals", "tals"} THEN "never"      \* D1
+  IF Dev("D1") /\ o \in {"no-rir-tals", "tals"} THEN "never"                   \* D1
   ELSE Table[o].print
 
 (* The token to_toml writes for value v of option o. *)
@@ -353,8 +357,8 @@ Token(o, v) ==
   ELSE IF v = "default" THEN v
   ELSE IF Kind(o) \in IntKinds /\ ~LE(v, "i64max") THEN "i64max"                             \* D3: unwrap_or(i64::MAX)
   ELSE IF Kind(o) \in PathKinds /\ v = "nonutf8" THEN "lossy"                                \* D5: display()
-  ELSE IF Kind(o) = "log" /\ Variant = "as_shipped" /\ v = "syslog:clock_daemon" THEN "syslog:clockdaemon"    \* D4
-  ELSE IF Kind(o) = "log" /\ Variant = "as_shipped" /\ v = "default:clock_daemon" THEN "default:clockdaemon"  \* D4
+  ELSE IF Kind(o) = "log" /\ Dev("D4") /\ v = "syslog:clock_daemon" THEN "syslog:clockdaemon"    \* D4
+  ELSE IF Kind(o) = "log" /\ Dev("D4") /\ v = "default:clock_daemon" THEN "default:clockdaemon"  \* D4
   ELSE v
 
 DefTok == [o \in AllOpts |-> Token(o, DefVal[o])]
